@@ -37,7 +37,15 @@ ASSUMPTIONS = [
     'for syntax- and symbol-level classes; for pre-sds validation classes (missing file, integer, regex) exit 0 is '
     'accepted as well, since `help symbol` promises only that nothing is executed',
     'absolute path symbols as creation targets are left to C12 (S9)',
-    'the positive control is always run in normal mode',
+    'the positive control is always run in normal mode; spellings tried by one case descriptor share the control run '
+    'when the text of the control is identical (counter c03.control_runs = real runs, c03.control_ok = uses)',
+    'under --keep / --act an invalid case must leave stdout empty and print the identifier on stderr (`help case`: '
+    '"If execution of the test case cannot be started ... nothing is output on stdout"; "error information is emitted '
+    'to stderr")',
+    'a `def` whose value is invalid counts as a defective instruction also when the symbol is never referenced '
+    '(tag unref_def) - the property quantifies over instructions, not over references',
+    'regex / integer texts that depend on a sandbox path symbol are validated after sandbox creation by design and '
+    'are not generated',
 ]
 EXHAUSTIVE_NOTE = ('every (instruction phase, position 0..k) x every spelling of every defect class for k = 2 (+ every '
                    '[conf] position and every act-phase defect), layout canonical, normal mode, is enumerated completely '
@@ -720,6 +728,11 @@ def _pos_kind(case):
     return 'first' if pos == 0 else 'last' if pos >= n else 'mid'
 
 
+# written-out samples for the evidence file: the first of each of these situations met by a worker (+ one symbol case)
+_SAMPLE_WANTED = {('missing', 'cleanup', 'last'), ('later', 'setup', 'first'), ('actsyntax', 'act', 'act')}
+_sampled = set()
+
+
 # ---------------------------------------------------------------------------------------------
 def _skipped_under_act(m):
     """markers / probe ids of [before-assert] and [assert] (documented to be skipped under --act)"""
@@ -878,9 +891,9 @@ def _run_one(case, ctx, ses, control_cache, res):
     key = (tagged, case['phase'], _pos_kind(case), case['via'], mode, case['layout'], seen)
     if key not in res['classes']:
         res['classes'].append(key)
-    if 'sample' not in res and case['sp'] == case['sps'][0] \
-            and (case['phase'], _pos_kind(case)) in (('cleanup', 'last'), ('act', 'act'), ('setup', 'first')) \
-            and cls in ('missing', 'later', 'actsyntax', 'badregex'):
+    skey = (cls, case['phase'], _pos_kind(case))
+    if 'sample' not in res and skey in _SAMPLE_WANTED and skey not in _sampled:
+        _sampled.add(skey)
         res['sample'] = {'case': {k: case[k] for k in ('cls', 'sp', 'phase', 'pos', 'via', 'mode', 'layout')},
                          'case_text': files['home/t.case'], 'expected': witness['expected'],
                          'observed': {'rc': main_obs['rc'], 'stdout': main_obs['stdout'],
@@ -957,6 +970,7 @@ def _run_symbol_case(case, ctx):
     ]
     viol, inconc, classes = [], [], []
     n_eval = 0
+    observed_forms = {}
     for form, argv, report_ok in forms:
         r, obs, effects = observe(ses, d, argv, None)
         if r.timed_out:
@@ -981,6 +995,8 @@ def _run_symbol_case(case, ctx):
                                     'expected': {'exit_code': 0, 'effects': 'none'}, 'tag': 'symbol_cmd',
                                     'executed_like_control': False}})
         classes.append(('symbol', form, case['layout'], 'rc=%s' % r.rc))
+        observed_forms[form] = {'rc': r.rc, 'stdout': r.out[:200], 'audit_event_names': obs['audit_event_names'],
+                                'markers': obs['markers'], 'new_tmp_entries': obs['new_tmp_entries']}
         _reset_obs(ses, d)
     # positive control: the very same file does have effects when run
     rc_, cobs, _ = observe(ses, d, [case_path], 'normal')
@@ -996,10 +1012,15 @@ def _run_symbol_case(case, ctx):
     ses.clean_tmp()
     ses.drop(d)
     res = {'classes': classes, 'viol': viol, 'inconclusive': inconc, 'evaluations': max(n_eval, 1)}
-    if case['layout'] == 'reversed' and len(case['kinds']['setup']) == 2:
+    if case['layout'] == 'reversed' and len(case['kinds']['setup']) == 2 and 'symbol' not in _sampled and not viol \
+            and not why:
+        _sampled.add('symbol')
         res['sample'] = {'cmd': 'exactly symbol FILE [SY_S [--ref]] | symbol --suite S FILE | symbol suite S',
                          'case_text': files['home/t.case'], 'expected': {'exit_code': 0, 'effects': 'none'},
-                         'control_run_of_same_file': {'rc': rc_.rc, 'markers': cobs['markers']}}
+                         'observed': {f: observed_forms.get(f) for f in ('list', 'suite_cmd')},
+                         'control_run_of_same_file': {'rc': rc_.rc, 'markers': cobs['markers'],
+                                                      'n_popen': sum(1 for e in rc_.audit
+                                                                     if e[0] == 'subprocess.Popen')}}
     return res
 
 
